@@ -54,6 +54,10 @@ def run(tier):
             for o in ([None, "data", "./a/b/c", "ABS", "pre"] if thorough else ([None, "pre"] if n == 20000 else ["ABS", rng.choice(["data", "./a/b/c"])])):
                 scen.append((s, n, o, rng.choice([None, "0", "0-1"]), rng.choice([1, 2, 16])))
     # the largest supported sample size (12.5 MB per file): a completion signal that comes before the data is on disk shows here
+    # lengths whose byte count is a multiple of a typical chunk size (64 KiB, 128 KiB, 1 MiB)
+    scen.append((3, 524288, "data", None, 16))
+    scen.append((2, 1048576, "ABS", "0-1", 2))
+    scen.append((2, 8388608, None, None, 16))
     scen.append((3, 100000000, "data", None, 16))
     scen.append((2, 100000000, None, "0", 1))
     if thorough:
